@@ -292,5 +292,7 @@ pub fn run(ctx: &Ctx, rec: &mut Rec) {
             }
         }
     });
+    // ---------------- (c) tamper-and-propagate over every other non-deterministic witness
+    crate::tamper::run(ctx, rec);
     rec.check_coverage();
 }
